@@ -1444,11 +1444,11 @@ def build_cases(ctx):
     rng = ctx.rng
     quick = ctx.tier == "quick"
     cases = fixed_probes()
-    for i in range(150 if quick else 1500):
+    for i in range(150 if quick else 4000):
         cases.append(gen_contacts_case(rng, i))
-    for i in range(30 if quick else 300):
+    for i in range(30 if quick else 600):
         cases.append(gen_squareform_case(rng))
-    k = 1 if quick else 10
+    k = 1 if quick else 25
     cases += [gen_centres_case(rng) for _ in range(30 * k)]
     cases += [gen_rg_case(rng) for _ in range(30 * k)]
     cases += [gen_geom_case(rng, "shape") for _ in range(25 * k)]
